@@ -136,8 +136,101 @@ class LieProp:
         return self.check_lines(ctx, lines)
 
 
-def std_key(l):
-    return {'op': l.op, 'group': l.grp, 'prec': l.prec, 'stratum': l.tag}
+# ---------------------------------------------------------------- descriptor helpers
+def parse_desc(s):
+    """'B[SO3,T2,B[SE2,C1]]' -> nested lists / strings"""
+    def go(i):
+        if s.startswith('B[', i):
+            i += 2
+            items = []
+            while s[i] != ']':
+                d, i = go(i)
+                items.append(d)
+                if s[i] == ',':
+                    i += 1
+            return items, i + 1
+        j = i
+        while j < len(s) and s[j] not in ',]':
+            j += 1
+        return s[i:j], j
+    return go(0)[0]
+
+
+def prim_sizes(p):
+    """(rep, dof, rotation tangent indices, quaternion rep offset or None)"""
+    if p == 'SO2': return 2, 1, [0]
+    if p == 'SO3': return 4, 3, [0, 1, 2]
+    if p == 'SE2': return 4, 3, [2]
+    if p == 'SE3': return 7, 6, [3, 4, 5]
+    if p == 'C1': return 2, 2, [1]
+    if p == 'GAL': return 11, 10, [7, 8, 9]
+    if p.startswith('SEK'):
+        k = int(p[3:]); return 4 + 3 * k, 3 + 3 * k, [3 * k, 3 * k + 1, 3 * k + 2]
+    if p.startswith('T'):
+        n = int(p[1:]); return n, n, []
+    raise ValueError(p)
+
+
+def flat_prims(d):
+    if isinstance(d, str):
+        return [d]
+    out = []
+    for x in d:
+        out += flat_prims(x)
+    return out
+
+
+def rot_norms(grp, tangent):
+    """[(primitive, rotation norm)] of a flat tangent vector of group descriptor `grp`"""
+    off = 0
+    res = []
+    for p in flat_prims(parse_desc(grp)):
+        rep, dof, ridx = prim_sizes(p)
+        if ridx:
+            res.append((p, math.sqrt(sum(tangent[off + i] ** 2 for i in ridx))))
+        off += dof
+    return res
+
+
+PRIORITY = ['GAL', 'SEK', 'SE3', 'SE2', 'SO3', 'C1', 'SO2']
+
+
+def band_of(th, prec):
+    if th == 0: return 'zero'
+    if th * th < 1e-8: return 'series'
+    if th < 0.3: return 'above_switch'      # closed forms with cancellation
+    return 'generic'
+
+
+def region_key(grp, tangent, prec):
+    """(culprit primitive, theta band, theta): the rotation factor in the most delicate band;
+    among equals the most complex primitive"""
+    rn = rot_norms(grp, tangent)
+    order = {'above_switch': 0, 'series': 1, 'generic': 2, 'zero': 3}
+    best = None
+    for p, th in rn:
+        b = band_of(th, prec)
+        fam = 'SEK' if p.startswith('SEK') else p
+        rank = (order[b], PRIORITY.index(fam) if fam in PRIORITY else 99)
+        if best is None or rank < best[0]:
+            best = (rank, fam, b, th)
+    if best is None:
+        return 'T', 'none', 0.0
+    return best[1], best[2], best[3]
+
+
+def std_key(l, tangent_from='in'):
+    """identifying key of a finding: op, scalar, culprit primitive and theta band of the tangent"""
+    k = {'op': l.op, 'group': l.grp, 'prec': l.prec, 'stratum': l.tag}
+    try:
+        vals = l.in_vals() if tangent_from == 'in' else l.out_vals()
+        _, dof = 0, sum(prim_sizes(p)[1] for p in flat_prims(parse_desc(l.grp)))
+        if len(vals) >= dof and tangent_from in ('in', 'out'):
+            fam, band, th = region_key(l.grp, vals[:dof], l.prec)
+            k.update({'culprit': fam, 'theta_band': band, 'theta': th})
+    except Exception:
+        pass
+    return k
 
 
 def simple_judge(errs, m):
